@@ -691,3 +691,15 @@ M('r17-mirror-lines-shared-by-copies', ['C17', 'C04', 'C05'], F, "        fields
   'the lines mirroring the inputs of an input form are cached per class and shared by all numbered copies (seed C04-Q)',
   more=[(F, "                raise TypeError(f'Unexpected input type in InputForm: {type(i)}')\n", "                raise TypeError(f'Unexpected input type in InputForm: {type(i)}')\n            InputForm._mirrored[key] = fields[-1]\n"),
         (F, "    input\"\"\"\n\n    def __init__(self,\n                 child_cls,", "    input\"\"\"\n\n    _mirrored = {}\n\n    def __init__(self,\n                 child_cls,")])
+
+
+# ------------------------------------------------------------------ behaviour-preserving twins for the rules of round 9
+M('r2-9-one-year-written-with-ifs', ['C02', 'C16'], Y23 + 'f1040_s1.py', "            hsa_deduction = v['8889:you.hsa_deduction'] if i['hsa_contribution_you'] else 0.0\n            hsa_deduction += v['8889:spouse.hsa_deduction'] if spouse_hsa else 0.0\n",
+  "            hsa_deduction = 0.0\n            if i['hsa_contribution_you']:\n                hsa_deduction += v['8889:you.hsa_deduction']\n            if spouse_hsa:\n                hsa_deduction += v['8889:spouse.hsa_deduction']\n", None,
+  'the 2023 line 13 written with if-blocks that still add: same combinations as its sibling years', expect='silent')
+M('k22f-file-handle-renamed', ['C03', 'C04', 'C14'], CLI, "        with open(args.solution, 'w') as outfile:\n            solution.write(outfile)\n", "        with open(args.solution, 'w') as solution_file:\n            solution.write(solution_file)\n", None,
+  'the file handle renamed', expect='silent')
+M('k38-registry-dict-call', ['C10', 'C11', 'C05'], S, "        self._input_map = {}\n", "        self._input_map = dict()\n", None, 'the registry created with dict()', expect='silent')
+M('k20-sigpipe-default', ['C20', 'C01'], CLI, "def main():\n", "def main():\n    import signal\n    signal.signal(signal.SIGPIPE, signal.SIG_DFL)\n", None, 'only SIGPIPE is reset: Ctrl-C still raises KeyboardInterrupt', expect='silent')
+M('k23c-length-in-a-local', ['C19'], PFD, "        if self.max_length is not None and len(value) > self.max_length:\n", "        n_chars = len(value)\n        if self.max_length is not None and n_chars > self.max_length:\n", None,
+  'the length kept in a local variable', expect='silent')
